@@ -41,7 +41,15 @@ RoundedOK ==
        \/ LET qa == KeyQ(OKey(a)) qb == KeyQ(OKey(b))
               ex == CASE Cfg.k = "Add" -> QAdd(qa, qb) [] Cfg.k = "Subtract" -> QSub(qa, qb)
                       [] Cfg.k = "Multiply" -> QMul(qa, qb) [] Cfg.k = "Divide" -> IF QIsZero(qb) THEN QZero ELSE QDiv(qa, qb)
-          IN  (Cfg.k = "Divide" /\ QIsZero(qb)) \/ ~Judged(ex) \/ (Tally("rounded") /\ OIsRounded(ObsNow, ex))
+              \* IEEE-754 also fixes the sign of a zero result (round to nearest): a product or quotient is negative iff exactly
+              \* one operand is; a sum is -0 only as (-0)+(-0), a difference only as (-0)-(+0)
+              na == a[2] = 1  nb == b[2] = 1
+              negzero == CASE Cfg.k \in {"Multiply", "Divide"} -> na # nb
+                           [] Cfg.k = "Add" -> na /\ nb
+                           [] Cfg.k = "Subtract" -> na /\ ~nb
+          IN  (Cfg.k = "Divide" /\ QIsZero(qb)) \/ ~Judged(ex)
+              \/ (/\ Tally("rounded") /\ OIsRounded(ObsNow, ex)
+                  /\ (~QIsZero(ex) \/ (Tally("rounded.zero") /\ (ObsNow[2] = 1) = negzero)))
 RefOK == \/ ~HasField(Cfg, "iref")
          \/ (Tally("ref") /\ OSame(ObsNow, ObsAt(Cfg.iref, Len(hist), idx)))
 
